@@ -52,7 +52,10 @@ func (g *respGen) headers() M {
 }
 
 func (g *respGen) body() M {
-	switch g.rng.Intn(12) {
+	switch g.rng.Intn(13) {
+	case 12:
+		// a media type carrying a quoted parameter
+		return M{"text/plain; charset=\"utf-8\"": M{"schema": Prim("string", "")}}
 	case 11:
 		// two JSON-flavoured media types (RFC 7807 style)
 		return M{"application/json": M{"schema": Ref("schemas", "Err")}, "application/problem+json": M{"schema": Ref("schemas", "Err")}}
